@@ -1373,9 +1373,11 @@ def undo_corollary():
         os.makedirs(d, exist_ok=True)
         fn = os.path.join(d, 'AssumUndo.v')
         with open(fn, 'w') as f:
-            f.write('From NV Require Import BufsUndo.\nPrint Assumptions switching_keeps_undo_stacks.\n')
+            f.write('From NV Require Import BufsUndo.\nPrint Assumptions switching_keeps_undo_stacks.\n'
+                    'Print Assumptions undo_step_laws.\nPrint Assumptions undo_no_open_step_in_background.\nPrint Assumptions ulb_one_undo.\n')
         r = vlib.sh(['coqc', '-Q', vlib.COQ, 'NV', fn], cwd=d, timeout=600)
-        info['print_assumptions'] = [l for l in r.stdout.split('\n') if l.strip()][-6:]
+        info['also'] = ['undo_step_laws', 'undo_no_open_step_in_background', 'ulb_one_undo']
+        info['print_assumptions'] = [l for l in r.stdout.split('\n') if l.strip()][-12:]
     except Exception as e:
         info['error'] = str(e)
     return info
